@@ -2,5 +2,6 @@ import NflowsModel.Audit.Tool
 import NflowsModel.Properties.C02
 import NflowsModel.Properties.C02E
 import NflowsModel.Properties.C02V
+import NflowsModel.Properties.C02A
 
 #audit_namespace Properties.C02
